@@ -61,8 +61,14 @@ def oracle(req, impl, build):
             else:
                 words += [v & 0xFFFFFFFF, v >> 32]
         want = {"xoshiro": 8, "splitmix": 2, "wyrand": 2}.get(d["gen"], 12)
-        if words != [(1 << 16) | j for j in range(want)]:
-            return "the state is not the fetched entropy words in order (every state bit must come from its own entropy bit): %s" % words[:4]
+        # every state word must be its OWN word of a successful entropy fetch (any order, any number of fetches): tagged, pairwise distinct
+        if len(words) != want:
+            return "the state has %d words, %d expected" % (len(words), want)
+        for w in words:
+            if not (1 <= (w >> 16) <= 1024 and (w & 0xFFFF) < 16384):       # not of the form ((fetch+1) << 16) | word index
+                return "a state word (%#x) is not a fetched entropy word (every state bit must come from its own entropy bit): %s" % (w, words[:4])
+        if len(set(words)) != len(words):
+            return "the same entropy word fills two state words: %s" % words[:6]
         return None
     script = [s != "fail" for s in d["script"].split(",")] if d["script"] else []
     ops = d["ops"].split(",") if d["ops"] else []
@@ -88,21 +94,32 @@ def oracle(req, impl, build):
                     return "returned word %#x does not come from a successful fetch" % w
                 if (k, j) in served or k in filled:
                     return "entropy word (fetch %d, word %d) served twice" % (k, j)
-                if j <= lastj.get(k, -1):
-                    return "entropy word (fetch %d, word %d) served out of order" % (k, j)
                 served.add((k, j))
                 lastj[k] = j
         else:
             b = bytes.fromhex(t[2:])
             if not b:
                 continue
-            w0 = int.from_bytes(b[:4].ljust(4, b"\0"), "little")
-            k = ((w0 >> 16) - 1) if len(b) >= 4 else None
-            if len(b) >= 4:
-                want = b"".join((((k + 1) << 16) | i).to_bytes(4, "little") for i in range((len(b) + 3) // 4))[:len(b)]
-                if b != want or k < 0 or (k < len(script) and not script[k]) or k in filled or k in lastj:
-                    return "fill_bytes did not return the bytes of one fresh successful fetch"
-                filled.add(k)
-            elif any(x == 0xEE for x in b) :
+            # the bytes of a fill are the little-endian bytes of entropy words, each from a successful fetch and none served before
+            # (one fetch today; several fetches would be as good). A trailing part of fewer than 4 bytes can only be checked for scribble.
+            for i in range(0, len(b) - len(b) % 4, 4):
+                w = int.from_bytes(b[i:i + 4], "little")
+                k, j = (w >> 16) - 1, w & 0xFFFF
+                if w == 0 or w == 0xEEEEEEEE or k < 0 or (k < len(script) and not script[k]):
+                    return "fill_bytes returned bytes that are not entropy words of a successful fetch (word %#x at byte %d: zero / scribbled / failed fetch)" % (w, i)
+                if (k, j) in served:
+                    return "fill_bytes returned entropy word (fetch %d, word %d) that was served before" % (k, j)
+                served.add((k, j))
+            r = len(b) % 4
+            tail = b[len(b) - r:]
+            if r >= 2 and all(x == 0xEE for x in tail):
                 return "fill_bytes returned scribbled bytes"
+            if r == 3 and tail[2] != 0:
+                # three bytes of a tagged word identify it (fetch numbers stay below 255 here): part of that entropy word has been handed out
+                j, k = tail[0] | (tail[1] << 8), tail[2] - 1
+                if (k, j) in served:
+                    return "fill_bytes returned 3 bytes of entropy word (fetch %d, word %d) that was served before" % (k, j)
+                if k < len(script) and not script[k]:
+                    return "fill_bytes returned bytes of a failed fetch"
+                served.add((k, j))
     return None
